@@ -34,6 +34,9 @@ type TaskSpec struct {
 	One       bool     `json:"one_command,omitempty"`     // the body is a single command
 	Separated bool     `json:"separated_scope,omitempty"` // submitted in a scope with its own context (as pip:try bodies are)
 	Sandbox   string   `json:"sandbox,omitempty"`         // "" = self | retfail:<id> | retok:<id> (pipx: failure reported only by Run's return value)
+	// StopScope: once every task has been submitted, the harness stops this task's (separated) scope
+	// gracefully - no error - while the task is still waiting for its prerequisites
+	StopScope bool `json:"stop_scope_while_waiting,omitempty"`
 }
 
 // Spec of a program.
@@ -132,6 +135,7 @@ func build(sp Spec, o *obs) func() {
 			}
 		}
 		var swg vsched.WaitGroup
+		var toStop []app.Scope
 		sharedWait := append(make([]string, 0, len(sp.SharedWait)+2), sp.SharedWait...)
 		for _, t := range sp.Tasks {
 			t := t
@@ -151,6 +155,9 @@ func build(sp Spec, o *obs) func() {
 				if tscope, err = w.Separated(); err != nil {
 					o.infra = err.Error()
 					return
+				}
+				if t.StopScope {
+					toStop = append(toStop, tscope)
 				}
 			}
 			wait := t.Wait
@@ -173,6 +180,9 @@ func build(sp Spec, o *obs) func() {
 			o.submitErr[t.Name] = w.Runner.Run(pip)
 		}
 		swg.Wait()
+		for _, ts := range toStop {
+			ts.Stop()
+		}
 		if sp.Ghost {
 			o.ghostErr = w.Runner.Run(w.Pip("ghostwaiter", "probe --id=ghostwaiter.c1\n", []string{"no-such-task"}, nil, nil))
 		}
@@ -500,6 +510,13 @@ func programs(thorough bool) []Spec {
 		sb.Separated = true
 		ps = append(ps, Spec{Tasks: []TaskSpec{sa, t("b")}, Bound: b}, Spec{Tasks: []TaskSpec{sa, sb}, Bound: b + 1}, Spec{Tasks: []TaskSpec{t("c"), sa}, Bound: b})
 	}
+	// a chain a <- b <- c in scopes of their own; b's scope is stopped gracefully while b waits for a, then
+	// a fails: b ends failed all the same, and c never runs
+	ca, cb, cc := fail(t("a"), "return1"), t("b", "a"), t("c", "b")
+	ca.Separated, cb.Separated, cc.Separated = true, true, true
+	ca.Yield, cb.StopScope = 1, true
+	ca.One, cb.One, cc.One = true, true, true
+	ps = append(ps, Spec{Tasks: []TaskSpec{ca, cb, cc}, Bound: b})
 	// a submission the runner has to refuse (unknown sandbox) is not a task: whoever names it in a wait
 	// list is refused as well and never runs
 	ns := t("a")
@@ -511,7 +528,7 @@ func programs(thorough bool) []Spec {
 	st.Separated, st.Yield = true, 1
 	sdep := t("b", "a")
 	sdep.Separated = true
-	ps = append(ps, Spec{Tasks: []TaskSpec{st, sdep}, Bound: b + 1})
+	ps = append(ps, Spec{Tasks: []TaskSpec{st, sdep}, Bound: 1}) // (bound 2 costs 0.4 M executions)
 	// tasks in a sandbox that reports success / failure only through its return value
 	rf, rk := t("a"), t("a")
 	rf.Sandbox, rk.Sandbox = "retfail:a.sb", "retok:a.sb"
